@@ -61,8 +61,12 @@ def form(layout, data):
             c = np.asarray(ind.covariates).reshape(-1)
             cov.append({0: "0", 1: "1"}.get(c[0].item(), f"other:{c[0]}") if len(c) == 1 and float(c[0]) == int(c[0]) else f"other:{c.tolist()}")
         else:
-            eb = np.asarray(ind.event_bool).reshape(-1)
-            event.append([et_kind(ind.event_time), int(eb[0]) if len(eb) == 1 else -1])
+            eb = np.asarray(ind.event_bool).reshape(-1).astype(bool)
+            # code of the observed event: 0 censored, k = the k-th kind of event (at most one observed)
+            code = 0 if not eb.any() else (int(np.argmax(eb)) + 1 if eb.sum() == 1 else -1)
+            times = np.asarray(ind.event_time, dtype=float).reshape(-1)
+            same_time = bool(len(times) == len(eb) and (np.all(times == times[0]) or np.all(np.isnan(times))))
+            event.append([et_kind(ind.event_time) if same_time else "split", code])
             cov.append("none")
     return {"order": order, "visits": visits, "event": event, "cov": cov}
 
@@ -80,7 +84,10 @@ def tensors_ok(layout, data, f):
         ok &= bool((ds.mask[k, :n] == 1).all()) and bool((ds.mask[k, n:] == 0).all())
     if layout == "joint":
         ok &= [et_kind(x) for x in ds.event_time] == [e[0] for e in f["event"]]
-        ok &= [int(bool(np.asarray(x).reshape(-1)[0])) for x in ds.event_bool] == [e[1] for e in f["event"]]
+        def code_of(row):
+            b = np.asarray(row).reshape(-1).astype(bool)
+            return 0 if not b.any() else (int(np.argmax(b)) + 1 if b.sum() == 1 else -1)
+        ok &= [code_of(x) for x in ds.event_bool] == [e[1] for e in f["event"]]
     if layout == "covariate":
         ok &= [str(int(np.asarray(x).reshape(-1)[0])) for x in ds.covariates] == f["cov"]
     return bool(ok)
